@@ -23,9 +23,15 @@ def b64u(b: bytes) -> str:
     return base64.urlsafe_b64encode(b).decode("ascii").rstrip("=")
 
 
+_B64URL = set("ABCDEFGHIJKLMNOPQRSTUVWXYZabcdefghijklmnopqrstuvwxyz0123456789-_")
+
+
 def unb64u(s) -> bytes:
+    """STRICT base64url (RFC 7515 section 2 / appendix C): the URL-safe alphabet only, NO padding, no white space"""
     if isinstance(s, bytes):
         s = s.decode("ascii")
+    if not isinstance(s, str) or any(c not in _B64URL for c in s) or len(s) % 4 == 1:
+        raise RefError("not unpadded base64url: %r" % (s[:40],))
     return base64.urlsafe_b64decode(s + "=" * (-len(s) % 4))
 
 
@@ -258,8 +264,14 @@ def deflate_raw(b):
 
 
 def inflate_raw(b):
+    """STRICT raw inflate (RFC 1951): the data must be ONE complete stream (a final block ends it) and nothing else"""
     d = zlib.decompressobj(-15)
-    return d.decompress(b) + d.flush()
+    out = d.decompress(b) + d.flush()
+    if not d.eof:
+        raise RefError("incomplete or truncated DEFLATE stream (no final block)")
+    if d.unused_data:
+        raise RefError("data after the end of the DEFLATE stream")
+    return out
 
 
 def agreement_key(alg, enc, hdr, z, tag):
@@ -323,6 +335,10 @@ def decrypt(token, key, sender=None, index=0):
         ek = unb64u(r["encrypted_key"]) if "encrypted_key" in r else b""
         iv, ct, tag = token["iv"], token["ciphertext"], token["tag"]
     prot = json.loads(unb64u(prot_b64))
+    if not isinstance(prot, dict):
+        raise RefError("protected header is not a JSON object")
+    if "zip" in unprot or "zip" in rhdr:
+        raise RefError('"zip" outside the protected header')      # RFC 7516 4.1.3: MUST be integrity protected
     hdr = dict(prot); hdr.update(unprot); hdr.update(rhdr)
     iv, ct, tag = unb64u(iv), unb64u(ct), unb64u(tag)
     alg, enc = hdr["alg"], hdr["enc"]
@@ -639,6 +655,18 @@ def run(ctx):
                 r2j(s, e, [a], tag, crv=crv, zip_=not z, aad=aad, apu=apv, apv=apu, spell=sp[n % len(sp)],
                     alg_in_protected=n % 2 == 0, unprotected={"cty": "x"} if (s != "compact" and n % 5 == 0) else None)
                 n += 1
+    # zip = DEF over plaintext classes (empty, tiny, repetitive, incompressible, 100 KB) through the STRICT reference
+    zclasses = [("empty", b""), ("one", b"x"), ("tiny", b"ab"), ("block", bytes(16)), ("text", b"to be or not to be " * 40),
+                ("random-1k", bytes(rng.getrandbits(8) for _ in range(1024))),
+                ("100KB-text", (b"The quick brown fox jumps over the lazy dog. " * 2300)[:100 * 1024]),
+                ("100KB-random", bytes(rng.getrandbits(8) for _ in range(100 * 1024)))]
+    for zi, (zname, zpt) in enumerate(zclasses):
+        for s in sers:
+            a, e = [("dir", "A128CBC-HS256"), ("A128KW", "A256GCM"), ("ECDH-ES", "C20P"), ("dir", "A256GCM")][(zi + sers.index(s)) % 4]
+            spec = J.make_spec(K, rng, s, [a], e, crv=J.ALL_CURVES[zi % 6], zip_=True, plaintext=zpt)
+            j2r(spec, "DEF:%s/%s/%s/%s" % (zname, a, e, s))
+            bump("def-class")
+
     # every spelling in every serialization, with and without aad
     for s in sers:
         for name_fn in sp:
@@ -755,6 +783,31 @@ def run(ctx):
                           {"vector": "RFC7518-C", "got": got})
     else:
         dist["vector-not-authenticated-by-reference"] = dist.get("vector-not-authenticated-by-reference", 0) + 1
+
+    # ---- the zlib contract of c08_deflate_raw, validated against real zlib on every intercepted zlib.compress call:
+    #      output = 2-octet zlib header ++ COMPLETE raw RFC 1951 stream of the input ++ Adler-32(input)
+    bad_contract = 0
+    for (zs, zout, zextra) in J.ZLIB_CALLS:
+        ctx.note_case(("zlib-contract", len(zs), zs[:8]))
+        # RFC 1950: CM = 8 (deflate), CINFO <= 7, FCHECK makes CMF*256+FLG a multiple of 31, no preset dictionary
+        okc = (len(zout) >= 6 and zout[0] & 0x0F == 8 and zout[0] >> 4 <= 7 and (zout[0] * 256 + zout[1]) % 31 == 0
+               and not zout[1] & 0x20 and zout[-4:] == struct.pack(">I", zlib.adler32(zs)))
+        if okc:
+            dd = zlib.decompressobj(-15)
+            try:
+                back = dd.decompress(zout[2:-4]) + dd.flush()
+                okc = back == zs and dd.eof and dd.unused_data == b""
+            except zlib.error:
+                okc = False
+        if not okc:
+            bad_contract += 1
+            if bad_contract <= 3:
+                ctx.violation({"kind": "zlib-contract"},
+                              "zlib.compress as called by DeflateZipModel.compress does not satisfy the contract assumed by c08_deflate_raw "
+                              "(2-octet zlib header ++ complete raw stream ++ Adler-32) for an input of %d octets" % len(zs),
+                              {"input_hex": zs[:64].hex(), "output_hex": zout[:64].hex(), "no_failing_input_found": True,
+                               "broken": "oracle contract zlib_contract"})
+    dist["zlib-contract-calls"] = len(J.ZLIB_CALLS)
 
     ctx.coverage["input_distribution"] = dist
     ctx.coverage["rule"] = ("reference(decrypt)(joserfc token) = plaintext for every recipient; joserfc(decrypt)(reference token, any protected-header "
